@@ -129,9 +129,25 @@ def load_known(prop):
 # ---------------------------------------------------------------------------
 # Lean side
 
+class build_lock:
+    """checks may run side by side: regenerating Gen/*.lean and `lake build` happen one at a time"""
+    def __enter__(self):
+        import fcntl
+        os.makedirs(os.path.join(LEAN_DIR, '.lake'), exist_ok=True)
+        self.f = open(os.path.join(LEAN_DIR, '.lake', 'verif-build.lock'), 'w')
+        fcntl.flock(self.f, fcntl.LOCK_EX)
+        return self
+
+    def __exit__(self, *a):
+        import fcntl
+        fcntl.flock(self.f, fcntl.LOCK_UN)
+        self.f.close()
+
+
 def lake_build(targets, timeout=3000):
     cmd = ['lake', 'build'] + targets
-    rc, out, dt = run(cmd, cwd=LEAN_DIR, timeout=timeout, env=LEAN_ENV)
+    with build_lock():
+        rc, out, dt = run(cmd, cwd=LEAN_DIR, timeout=timeout, env=LEAN_ENV)
     return rc, out, dt
 
 
@@ -252,8 +268,9 @@ def main(mod, argv):
     # 1. translators
     try:
         import gen_all
-        changed = gen_all.generate_all()      # every Gen/*.lean follows /repo on every run
-        changed += [c for c in mod.translate(ctx) if c not in changed]
+        with build_lock():
+            changed = gen_all.generate_all()      # every Gen/*.lean follows /repo on every run
+            changed += [c for c in mod.translate(ctx) if c not in changed]
         proof_info['regenerated'] = changed
     except Exception as e:  # translator met something it does not understand
         broken.append(dict(kind='translator', detail='{}: {}'.format(type(e).__name__, e)))
@@ -332,6 +349,13 @@ def main(mod, argv):
 
     status = 0
     replay_path = None
+    if not args.replay:
+        # replay files of earlier runs describe another tree: remove them
+        for name in ('violation', 'broken'):
+            try:
+                os.remove(os.path.join(REPLAY_DIR, '{}-{}.json'.format(prop, name)))
+            except OSError:
+                pass
     if new:
         v = new[0]
         rep = dict(property=prop, kind='failing-input', what=v['what'], case=v['replay'],
